@@ -657,7 +657,7 @@ def run_local_obligation(ctx, R, prover, U, direction="local"):
     NOTFOUND = fsmodels.ERRKIND.get("NotFound", 1)
     goals = {
         "exit-0-after-a-real-run-means-every-delivery-succeeded-and-every-planned-removal-succeeded-(or-the-file-was-already-gone)": z3.Implies(
-            z3.And(run_ok, done), z3.And(_all(z3.Implies(d_["guard"], d_["ok"]) for d_ in dels),
+            run_ok, z3.And(_all(z3.Implies(d_["guard"], d_["ok"]) for d_ in dels),
                                         _all(z3.Implies(r_["guard"], z3.Or(r_["ok"], r_.get("errkind", I(-1)) == NOTFOUND)) for r_ in rms),
                                         _all(z3.Implies(r_["guard"], r_["ok"]) for r_ in rdel))),
         "the-i-th-delivery-is-the-plan's-i-th-transfer:-src/rel->dst/rel-with-the-source's-mtime;-the-i-th-removal-is-the-plan's-i-th-delete-under-the-destination": _all(conds),
@@ -926,7 +926,7 @@ def native_pull_witness(R, pid):
     return w
 
 
-def undeletable_case(direction, profile):
+def undeletable_case(direction, profile, uptodate=False):
     """`sync -r --delete` facing a stale destination file that CANNOT be removed (immutable attribute: also root is refused);
     direction: local | pull | push (the latter two through the stand-in for ssh)"""
     import shutil, tempfile
@@ -939,6 +939,11 @@ def undeletable_case(direction, profile):
         for x in (s, d, home):
             os.makedirs(x)
         open(os.path.join(s, "keep"), "w").write("keep")
+        os.utime(os.path.join(s, "keep"), (1_650_000_000, 1_650_000_000))
+        if uptodate:
+            # the destination already holds every source file (same size and mtime): the transfer set is EMPTY, only the delete remains
+            open(os.path.join(d, "keep"), "w").write("keep")
+            os.utime(os.path.join(d, "keep"), (1_650_000_000, 1_650_000_000))
         stale = os.path.join(d, "stale")
         open(stale, "w").write("stale")
         a = subprocess.run(["chattr", "+i", stale], stdout=subprocess.PIPE, stderr=subprocess.PIPE)
@@ -957,14 +962,16 @@ def undeletable_case(direction, profile):
 
 def undeletable_witness(R, pid, directions=("local",)):
     for direction in directions:
+      for uptodate in (False, True):
         for prof in ("dev", "release"):
-            r = undeletable_case(direction, prof)
+            r = undeletable_case(direction, prof, uptodate)
             if "skipped" in r:
                 return {"confirmed": False, "detail": r["skipped"]}
             if r["rc"] == 0 and r["stale_still_there"]:
-                case = {"fn": "copia_undeletable", "direction": direction, "observed": {prof: r}}
+                case = {"fn": "copia_undeletable", "direction": direction, "uptodate": uptodate, "observed": {prof: r}}
                 return {"confirmed": True, "replay_path": R.save_replay("%s/undeletable" % pid, case), "key": "%s/delete-failure-exits-0/%s" % (pid, direction),
-                        "detail": "`copia sync -r --delete` (%s, %s) with a stale file that cannot be removed: exit 0, %r, and the file is still there" % (direction, prof, r["said"].strip().split("\n")[-2:])}
+                        "detail": "`copia sync -r --delete` (%s, %s%s) with a stale file that cannot be removed: exit 0, %r, and the file is still there" % (
+                            direction, prof, ", nothing to transfer" if uptodate else "", r["said"].strip().split("\n")[-2:])}
     return {"confirmed": False, "detail": "a removal that fails makes the run exit non-zero (%s)" % ", ".join(directions)}
 
 
@@ -1178,9 +1185,9 @@ def replay(path):
         return 0
     if case.get("fn") == "copia_undeletable":
         for prof in ("dev", "release"):
-            print(prof, json.dumps(undeletable_case(case["direction"], prof)))
+            print(prof, json.dumps(undeletable_case(case["direction"], prof, case.get("uptodate", False))))
         return 0
-    if case.get("fn") in ("remote_shell_transport", "remote_list_newline"):
+    if case.get("fn") in ("remote_shell_transport", "remote_list_newline", "remote_writer_death"):
         from . import shellcmd
         shellcmd.replay_case(case)
         return 0
